@@ -1212,6 +1212,10 @@ class Exec:
                 # the server closed; the client learnt it from the EOF.  Agreed only if a message announced it.
                 if not announced_close:
                     flag("keepalive:client-pooled-server-closed:" + detail, desc)
+                elif resp_m is not None and not resp_m.close:
+                    # only the *request* said close: the server acted on it without saying so in its response, and the
+                    # client (which decides from the response) kept the connection until the EOF told it otherwise
+                    flag("keepalive:server-closed-on-request-close-without-announcing-it", desc)
             elif a_own and not b_own:
                 if not announced_close:
                     flag("keepalive:server-open-client-closed:" + detail, desc)
